@@ -71,7 +71,16 @@ func main() {
 			os.Exit(2)
 		}
 		p := loadProg(*repo)
-		fmt.Print(p.genRoles(strings.Fields(string(b))))
+		names := strings.Fields(string(b))
+		if len(names) == 1 && names[0] == "*" {
+			names = nil
+			for n, f := range p.byName {
+				if f.Parent() == nil {
+					names = append(names, n)
+				}
+			}
+		}
+		fmt.Print(p.genRoles(names))
 		return
 	}
 	start := time.Now()
